@@ -197,10 +197,14 @@ func (pit *pebbleIterator) Seek(id []byte) error {
 func (pit *pebbleIterator) SeekReverse(id []byte) error {
 	pit.forward = false
 	if !pit.iter.SeekGE(id) {
-		return io.EOF
-	}
-	if bytes.Compare(id, pit.iter.Key()) < 0 {
-		pit.iter.Prev()
+		//every key is below id: the last key is the one we want
+		if !pit.iter.Last() {
+			return io.EOF
+		}
+	} else if bytes.Compare(id, pit.iter.Key()) < 0 {
+		if !pit.iter.Prev() {
+			return io.EOF
+		}
 	}
 	pit.key = copyBytes(pit.iter.Key())
 	pit.value = copyBytes(pit.iter.Value())
